@@ -235,30 +235,49 @@ structure StrTo where
   erange : Bool
   deriving Repr, DecidableEq
 
-/-- the digit loop: (exact magnitude, number of digit characters) -/
-def scanDigits (base : Nat) : List Nat → Nat → Nat → Nat × Nat
-  | [], acc, n => (acc, n)
-  | c :: cs, acc, n =>
-    if isDigitOf base c then scanDigits base cs (acc * base + (digitVal c).getD 0) (n + 1)
-    else (acc, n)
+/-- value of a digit run, most significant digit first (the accumulation loop of `strto*`) -/
+def digitRunValue (base : Nat) (ds : List Nat) : Nat :=
+  ds.foldl (fun acc c => acc * base + (digitVal c).getD 0) 0
+
+/-- the digit loop: the maximal run of base-`base` digits: (exact magnitude, number of digit characters) -/
+def scanDigits (base : Nat) (s : List Nat) : Nat × Nat :=
+  let ds := s.takeWhile (isDigitOf base)
+  (digitRunValue base ds, ds.length)
+
+/-- base prefix and digits: (magnitude, characters consumed); consumed = 0 when there is no digit.
+    `base` is 0, 8, 10 or 16. -/
+def scanBody (s : List Nat) (base : Nat) : Nat × Nat :=
+  let plain : Nat × Nat :=
+    scanDigits (if base = 0 then (if s.head? = some 48 then 8 else 10) else base) s
+  match s with
+  | a :: b :: rest =>
+    if (base = 0 ∨ base = 16) ∧ a = 48 ∧ (b = 120 ∨ b = 88) then
+      let r := scanDigits 16 rest
+      -- "0x" without a hex digit: the "0" alone is converted
+      if r.2 = 0 then (0, 1) else (r.1, r.2 + 2)
+    else plain
+  | _ => plain
+
+/-- optional sign, then the body: (negative, magnitude, consumed) -/
+def scanSigned (s : List Nat) (base : Nat) : Bool × Nat × Nat :=
+  match s with
+  | c :: rest =>
+    if c = 45 then
+      let r := scanBody rest base
+      (true, r.1, if r.2 = 0 then 0 else r.2 + 1)
+    else if c = 43 then
+      let r := scanBody rest base
+      (false, r.1, if r.2 = 0 then 0 else r.2 + 1)
+    else
+      let r := scanBody s base
+      (false, r.1, r.2)
+  | [] => (false, 0, 0)
 
 /-- white space, sign, base prefix, digits.  Result: (negative, magnitude, consumed) with consumed = 0 when
-    no conversion is performed.  `base` is 0, 8, 10 or 16. -/
+    no conversion is performed. -/
 def scanNumber (s : List Nat) (base : Nat) : Bool × Nat × Nat :=
-  let ws := (s.takeWhile isSpace).length
-  let s1 := s.drop ws
-  let neg := s1.head? = some 45
-  let sg := if s1.head? = some 45 ∨ s1.head? = some 43 then 1 else 0
-  let s2 := s1.drop sg
-  let hexPrefix := (base = 0 ∨ base = 16) ∧ s2.head? = some 48 ∧ ((s2.drop 1).head? = some 120 ∨ (s2.drop 1).head? = some 88)
-  if hexPrefix then
-    let r := scanDigits 16 (s2.drop 2) 0 0
-    -- "0x" without a hex digit: the "0" alone is converted
-    if r.2 = 0 then (neg, 0, ws + sg + 1) else (neg, r.1, ws + sg + 2 + r.2)
-  else
-    let b := if base = 0 then (if s2.head? = some 48 then 8 else 10) else base
-    let r := scanDigits b s2 0 0
-    if r.2 = 0 then (neg, 0, 0) else (neg, r.1, ws + sg + r.2)
+  let r := scanSigned (s.dropWhile isSpace) base
+  (r.1, r.2.1, if r.2.2 = 0 then 0 else (s.takeWhile isSpace).length + r.2.2)
 
 def strtoimax (s : List Nat) (base : Nat) : StrTo :=
   let r := scanNumber s base
